@@ -7,7 +7,7 @@
 
 struct SchedGen {
   uint64_t cur_prog = UINT64_MAX; Case base; uint32_t nsteps = 0, nweak = 0; int nthreads = 0; std::vector<uint32_t> conflict_steps; bool probe_ok = false;
-  struct AddrInfo { uint32_t addr; uint32_t cnt[4]; uint32_t writes[4]; int nthr; }; std::vector<AddrInfo> shared_addrs;   // addresses that >= 2 threads access, at least once with a write: per-thread access counts
+  struct AddrInfo { uint32_t addr; uint32_t cnt[4]; uint32_t writes[4]; int nthr; uint8_t nseq[4]; uint8_t seq[4][32]; /* kinds of the first 32 accesses per thread */ }; std::vector<AddrInfo> shared_addrs;   // addresses that >= 2 threads access, at least once with a write: per-thread access counts
   static const uint64_t PER = 400;
 
   // ---- programs
@@ -18,15 +18,15 @@ struct SchedGen {
   // one page of the owner, two other threads free blocks of it while the owner collects / allocates the same class: the three-party races on
   // page->xthread_free and heap->thread_delayed_free (first remote free = delayed path, second = direct push, owner = list take-over)
   Case gen_contended_program(const std::string& mode, Chooser& ch) {
-    Case c; static const std::vector<size_t> cls = { 2048, 2048, 1000, 8*KiB, 16, 300, 20000, 100*KiB }; size_t n = ch.of(cls); size_t n2 = ch.chance(1, 3) ? ch.of(cls) : n;
-    int k = (int)ch.range(3, 8); auto O = [&](Op op, int t) { op.u("t", (uint64_t)t); c.push_back(op); };
+    Case c; static const std::vector<size_t> cls = { 2048, 2048, 1000, 8*KiB, 8*KiB, 16, 300, 20000, 60000, 100*KiB }; size_t n = ch.of(cls); size_t n2 = ch.chance(1, 3) ? ch.of(cls) : n;
+    int k = (int)ch.range(3, 12);   /* (classes with 5-8 blocks per page make the owner's later allocations take the generic path, which collects the page's thread-free list) */ auto O = [&](Op op, int t) { op.u("t", (uint64_t)t); c.push_back(op); };
     for (int s = 0; s < k; s++) O(Op("A").u("s", (uint64_t)s).u("n", (s == k - 1 ? n2 : n)), 0);
     std::vector<int> order(k); for (int i = 0; i < k; i++) order[i] = i; for (int i = k - 1; i > 0; i--) std::swap(order[i], order[ch.pick((size_t)i + 1)]);
-    int nf = (int)ch.range(2, (uint64_t)k); for (int i = 0; i < nf; i++) O(Op("F").u("s", (uint64_t)order[i]), 1 + (i % 2 == 0 ? 0 : 1) * (int)1);   // alternate between thread 1 and 2
+    int nf = (int)ch.range(k >= 4 ? 3 : 2, (uint64_t)k); for (int i = 0; i < nf; i++) O(Op("F").u("s", (uint64_t)order[i]), 1 + (i % 2 == 0 ? 0 : 1) * (int)1);   // alternate between thread 1 and 2
     int next = k;
     auto owner_work = [&](int cnt) { for (int i = 0; i < cnt; i++) { unsigned w = (unsigned)ch.pick(5);
       if (w == 0) O(Op("C").u("force", ch.chance(1, 4)), 0); else if (w == 1 && nf < k) O(Op("F").u("s", (uint64_t)order[nf++]), 0); else if (w == 2) O(Op("V"), 0); else O(Op("A").u("s", (uint64_t)next++).u("n", n), 0); } };
-    owner_work((int)ch.range(1, 4)); O(Op("J"), 0); owner_work((int)ch.range(2, 5));
+    owner_work((int)ch.range(1, 6)); O(Op("J"), 0); owner_work((int)ch.range(2, 6));
     O(Op("VA"), 0); for (int s = 0; s < next; s++) O(Op("F").u("s", (uint64_t)s), 0); if (mode == "C02" || mode == "C08") O(Op("Q"), 0);
     for (size_t i = 0; i < c.size(); i++) c[i].u("i", i);
     return c;
@@ -105,7 +105,7 @@ struct SchedGen {
     std::unordered_map<uint32_t, uint32_t> who, wr;
     for (uint32_t i = 0; i < n; i++) { who[g_trace->rec[i].addr] |= 1u << g_trace->rec[i].thread; if (g_trace->rec[i].kind != MI_VF_LOAD) wr[g_trace->rec[i].addr] = 1; }
     for (uint32_t i = 0; i < n; i++) { uint32_t w = who[g_trace->rec[i].addr]; if ((w & (w - 1)) != 0 && wr.count(g_trace->rec[i].addr)) conflict_steps.push_back(i + 1); }
-    shared_addrs.clear(); { std::map<uint32_t, AddrInfo> m; for (uint32_t i = 0; i < n; i++) { uint32_t a = g_trace->rec[i].addr; uint32_t w = who[a]; if ((w & (w - 1)) == 0 || !wr.count(a)) continue; AddrInfo& ai = m[a]; ai.addr = a; if (g_trace->rec[i].thread < 4) { ai.cnt[g_trace->rec[i].thread]++; if (g_trace->rec[i].kind != MI_VF_LOAD) ai.writes[g_trace->rec[i].thread]++; } }
+    shared_addrs.clear(); { std::map<uint32_t, AddrInfo> m; for (uint32_t i = 0; i < n; i++) { uint32_t a = g_trace->rec[i].addr; uint32_t w = who[a]; if ((w & (w - 1)) == 0 || !wr.count(a)) continue; AddrInfo& ai = m[a]; ai.addr = a; if (g_trace->rec[i].thread < 4) { int tt = g_trace->rec[i].thread; if (ai.nseq[tt] < 32) ai.seq[tt][ai.nseq[tt]++] = g_trace->rec[i].kind; ai.cnt[tt]++; if (g_trace->rec[i].kind != MI_VF_LOAD) ai.writes[tt]++; } }
       for (auto& kv : m) { kv.second.nthr = 0; for (int t = 0; t < 4; t++) if (kv.second.cnt[t]) kv.second.nthr++; shared_addrs.push_back(kv.second); } }
     probe_ok = true;
   }
@@ -145,6 +145,9 @@ struct SchedGen {
         if (!wr.empty()) {
           int B = wr[sch.pick(wr.size())]; int C = wr[sch.pick(wr.size())]; if (C == B && wr.size() > 1) C = wr[(std::find(wr.begin(), wr.end(), B) - wr.begin() + 1) % wr.size()];
           uint64_t m = 1 + sch.range(1, std::min<uint64_t>(ai.cnt[A], 16)), extra = sch.pick(3);
+          // two times in three the victim is stopped right after a load that a CAS/RMW/store of the same thread follows within three accesses (the window of a retry loop)
+          if (sch.chance(2, 3)) { std::vector<uint64_t> wins; for (int i = 0; i < ai.nseq[A]; i++) if (ai.seq[A][i] == MI_VF_LOAD) for (int j2 = i + 1; j2 <= i + 3 && j2 < ai.nseq[A]; j2++) if (ai.seq[A][j2] != MI_VF_LOAD) { wins.push_back((uint64_t)i + 2); break; }
+            if (!wins.empty()) m = wins[sch.pick(wins.size())]; }
           if (sch.chance(2, 3)) c.push_back(Op("G").u("t", (uint64_t)C).u("a", ai.addr).u("k", sch.range(1, std::min<uint64_t>(ai.cnt[C] + 1, 16))).u("to", (uint64_t)A));
           c.push_back(Op("G").u("t", (uint64_t)A).u("a", ai.addr).u("k", m).u("to", (uint64_t)B));
           std::string order;
